@@ -58,6 +58,11 @@ def run(ctx, prop=PROP):
             ctx.violation(core.Violation(prop, r.name, "obligation generated from the current source is not discharged (%s by %s); the bounded run found no failing input"
                                          % (r.verdict, r.backend), input=None, cls={"method": method},
                                          solver={"verdict": r.verdict, "backend": r.backend, "detail": r.detail, "model": r.model}, no_input=True))
+    callsites = None
+    if prop == "C06":
+        from ..kvc import callsite
+
+        callsites = callsite.run(ctx, "C06", ["collapsed"])
     bad_canaries = [r for r in results if r.kind == "canary" and not r.discharged]
     if bad_canaries and not failed:
         raise core.CheckerBroken("vacuity: `False` provable at %s" % bad_canaries[0].name)
@@ -71,6 +76,8 @@ def run(ctx, prop=PROP):
             "solver_s": round(sum(r.seconds for r in results), 2),
             "samples": [{"obligation": r.name, "verdict": r.verdict, "backend": r.backend} for r in real[:6]],
         }
+        if callsites:
+            ctx.coverage["proved_subobligations"]["fit_dtype_call_sites"] = callsites
     ctx.assumptions += ["bounded: holds on the enumerated state/argument scope only (engine C is the bounded stand-in, not a proof)",
                         "histories: by induction over per-operation contracts whose only precondition on the receiver is wf"]
 
